@@ -1,3 +1,5 @@
+//go:build !no_fuzz
+
 package props
 
 import (
